@@ -21,6 +21,11 @@ impl<R: Read> FusedReader<R> {
 
 impl<R: Read> Read for FusedReader<R> {
     fn read(&mut self, buf: &mut [u8]) -> IoResult<usize> {
+        // a read into an empty buffer returns 0 without meaning end-of-stream, and must not
+        // make the inner reader (e.g. the chunk decoder) consume anything
+        if buf.is_empty() {
+            return Ok(0);
+        }
         match &mut self.inner {
             Some(r) => {
                 let l = r.read(buf)?;
@@ -34,6 +39,9 @@ impl<R: Read> Read for FusedReader<R> {
     }
 
     fn read_vectored(&mut self, bufs: &mut [IoSliceMut<'_>]) -> IoResult<usize> {
+        if bufs.iter().all(|b| b.is_empty()) {
+            return Ok(0);
+        }
         match &mut self.inner {
             Some(r) => {
                 let l = r.read_vectored(bufs)?;
